@@ -92,7 +92,8 @@ func runC03(c *fw.Ctx, idx int) {
 			}
 			if idx == 3 {
 				d := new(apd.Decimal)
-				d.SetFinite(15, 53207914)
+				d.Coeff.SetString("189629961522271624219434862811", 10)
+				d.Exponent = 53207914
 				e = ev.Event{K: ev.BDFLOAT, BD: d}
 			}
 			doc, fi, _ := encodeWithRules(ce.NewCBEEncoder(cfg), []ev.Event{{K: ev.BD}, {K: ev.VER}, e, {K: ev.ED}}, cfg)
